@@ -9,6 +9,7 @@ CoreT<TArgs>::CoreT(Context& context_
 				  HFSM2_IF_UTILITY_THEORY(, RNG& rng_)
 				  HFSM2_IF_LOG_INTERFACE(, Logger* const logger_)) noexcept
 	: context{context_}
+	HFSM2_IF_TRANSITION_HISTORY(, transitionTargets{INVALID_SHORT})
 	HFSM2_IF_UTILITY_THEORY(, rng{rng_})
 	HFSM2_IF_LOG_INTERFACE(, logger{logger_})
 {}
@@ -21,6 +22,7 @@ CoreT<TArgs>::CoreT(PureContext&& context_
 				  HFSM2_IF_UTILITY_THEORY(, RNG& rng_)
 				  HFSM2_IF_LOG_INTERFACE(, Logger* const logger_)) noexcept
 	: context{move(context_)}
+	HFSM2_IF_TRANSITION_HISTORY(, transitionTargets{INVALID_SHORT})
 	HFSM2_IF_UTILITY_THEORY(, rng	{rng_	})
 	HFSM2_IF_LOG_INTERFACE (, logger{logger_})
 {}
